@@ -1765,7 +1765,7 @@ func (app *App) repairReadOnlyOnMaster(masterNode *mysql.Node, masterState *node
 		}
 	}
 	if replicasRunning > 0 {
-		if masterState.SemiSyncState != nil && replicasLow > replicasRunning-masterState.SemiSyncState.WaitSlaveCount {
+		if masterState.SemiSyncState != nil && replicasLow > 0 && replicasLow > replicasRunning-masterState.SemiSyncState.WaitSlaveCount {
 			app.logger.Error().Msg("diskusage: all semisync replicas have critical disk usage")
 			needRo = true
 		} else if replicasNormal == 0 {
